@@ -114,12 +114,16 @@ def run_share(pid, tier, count, nconn=6, race=True):
     return violations, cov
 
 
-def run_conc_check(pid, tier, n_sched, n_free, race=False, assumptions=()):
+def run_conc_check(pid, tier, n_sched, n_free, race=False, assumptions=(), fault_only=False):
+    """fault_only (C10): only the replay part, over schedules in which a write-side transport operation fails while
+    other writers are queued; the exhaustive model runs belong to C09/C11."""
     t0 = time.time()
     seed = core.seed()
     core.build_driver()
     if race:
         core.build_driver(race=True)
+    if fault_only:
+        return _replay_part(pid, tier, n_sched, n_free, race, seed, t0, None, "MC_Conc_sim_fault.cfg")
     mc = core.run_mc("MC_Conc.tla", "MC_Conc_quick.cfg" if tier == "quick" else "MC_Conc_thorough.cfg", "%s-mc-conc" % pid, heap="16g")
     log("[%s] MC lock protocol vs monitor: %d distinct states, %d generated, %.1fs" % (pid, mc["states"], mc["transitions"], mc["wall"]))
     live = core.run_mc("MC_Conc.tla", "MC_Conc_live.cfg", "%s-mc-live" % pid, workers=8)
@@ -129,12 +133,21 @@ def run_conc_check(pid, tier, n_sched, n_free, race=False, assumptions=()):
     log("[%s] lock protocol refines WSLockCore (%d states); TLAPS: %d obligations of the inductive invariant proved (any number of threads)" % (pid, ref["states"], nobl))
     mut = core.expect_violation("MC_Conc.tla", "MC_Conc_mutation.cfg", "%s-mc-mutation" % pid)
     log("[%s] sensitivity: the 'sticky check before the lock' deviation violates %s after %d states (as it must)" % (pid, mut["invariant"], mut["states"]))
-    sim = core.run_sim("MC_Conc.tla", "MC_Conc_sim.cfg" if tier == "quick" else "MC_Conc_sim_thorough.cfg", "%s-sim" % pid, n_sched, 200, seed)
+    return _replay_part(pid, tier, n_sched, n_free, race, seed, t0, dict(mc=mc, live=live, ref=ref, nobl=nobl, mut=mut),
+                        "MC_Conc_sim.cfg" if tier == "quick" else "MC_Conc_sim_thorough.cfg")
+
+
+def _replay_part(pid, tier, n_sched, n_free, race, seed, t0, model, sim_cfg):
+    sim = core.run_sim("MC_Conc.tla", sim_cfg, "%s-sim" % pid, n_sched, 200, seed)
     scheds = sim["progs"]
     if not scheds:
         raise core.Infra("no schedules generated")
     conc = concretise(scheds, pid, tier, seed)
     free = free_programs(scheds, pid, tier, seed, n_free, block=True)
+    if model is None:
+        for p in free:
+            if p["faultAt"] == 0:
+                p["faultAt"] = 1 + (p["seed"] % 5)
     allp = conc + free
     byid = {p["id"]: p for p in allp}
     name = "%s-%s-conc" % (pid, tier)
@@ -177,7 +190,8 @@ def run_conc_check(pid, tier, n_sched, n_free, race=False, assumptions=()):
                         closed = True
                         if e["t"] == "R":
                             floors["close_by_reader"] += 1
-    missing = [k for k, v in floors.items() if v == 0 and k in ("wc_timeout", "wc_closesent", "transport_fault", "write_after_close_attempt")]
+    need = ("wc_timeout", "wc_closesent", "transport_fault", "write_after_close_attempt") if model else ("transport_fault",)
+    missing = [k for k, v in floors.items() if v == 0 and k in need]
     if missing:
         raise core.Infra("coverage floor not met in the replayed schedules (never observed): %s" % ", ".join(missing))
     res = core.validate("WSConcTrace.tla", "WSConcTrace.cfg", files, name)
@@ -206,6 +220,15 @@ def run_conc_check(pid, tier, n_sched, n_free, race=False, assumptions=()):
         path = core.save_replay(pid, "conc", prog, rj["trace"], "event %d not explained by WSConc: %s" % (rj["index"], json.dumps(rj["event"])[:500]),
                                 extra=dict(reproduced=ok))
         violations.append(path)
+    if model is None:
+        cov = dict(situations_observed=floors, states=sim["states"], transitions=sim["states"], traces_validated_against_impl=res["traces"],
+                   trace_events=res["events"], simulated_model_states=sim["states"], schedules_replayed=len(conc), free_runs=len(free),
+                   evaluations=res["traces"], distinct_nontrivial=len(conc), exhaustive=False,
+                   rule="schedules with a failing write-side transport operation drawn by TLC -simulate from WSConcMC (%s), replayed through the "
+                        "verification gates; free runs with a fault; validated against the monitor WSConc" % sim_cfg,
+                   samples=[dict(program=conc[0])] if conc else [])
+        return violations, cov, time.time() - t0
+    mc, live, ref, nobl, mut = model["mc"], model["live"], model["ref"], model["nobl"], model["mut"]
     cov = dict(refinement=dict(config="MC_Conc_refine.cfg", states=ref["states"], property="Core!Spec (WSLockCore)"),
                proof=dict(module="spec/proof/WSLockCoreProof.tla", obligations=nobl, discharged=nobl, checker_cmd="tlapm --threads 16 WSLockCoreProof.tla",
                           theorem="Spec => []IndInv, hence a close frame is the last frame written and the transport section is exclusive, for any set of threads"),
